@@ -153,6 +153,14 @@ CHECKS = {
         'note': 'Processes are modelled (real eligibility test of the file, behaviour fast/failing/hanging chosen by the harness); timers are virtual.',
         'parts': [McPart('mc', 'C19', 'cmd/whawty-auth', ['harness/agentmc'], AGENT_RW)],
     },
+    'C13': {
+        'level': 'exploration',
+        'engine': 'seqx+pamx',
+        'technique': 'bounded exhaustive enumeration: all field-length vectors over boundary lengths, all byte strings up to length 5/6 over a protocol alphabet vs. a reference codec, every fragmentation (composition into reads, zero-length reads, EOF with data) of short streams; C encoder bound to the Go encoder by exported vectors',
+        'text': 'Encoder output equals the wire format for every boundary vector; over-limit fields are refused by encoder and decoder; every enumerated byte string decodes exactly like a reference decoder written from the format, and re-encodes to the consumed prefix; the decode result is identical under every fragmentation; the compiled PAM module writes the same bytes as sasl.Request.Marshal for every exported vector.',
+        'note': 'Byte strings beyond the enumerated alphabet/length and fragmentations of streams longer than 10 (14) bytes are covered by representative patterns only.',
+        'parts': [GoTest('codec', 'sasl', ['harness/saslseq'], '^TestC13$'), PamxPart('pam-encoder', mode='vectors', producer='pamvectors.bin')],
+    },
     'C20': {
         'level': 'model_checking',
         'engine': 'pamx',
